@@ -5,6 +5,7 @@ package main
 // operands of elementwise operations, masks through transposition / slicing / materialisation.
 
 import (
+	"strconv"
 	"fmt"
 	"strings"
 )
@@ -486,6 +487,22 @@ func genC15(g *gen) {
 		}
 		steps = append(steps, fmt.Sprintf("miter $%d Y", cur), fmt.Sprintf("mq count $%d", cur), "mdump $0")
 		g.emit(steps...)
+	}
+
+	// --- G2. the copying transpositions keep the mask with the elements: SafeT, the package functions tensor.T and
+	// tensor.Transpose, safe axis rolling, on masked tensors of every element width; the copy is inspected and the
+	// source's mask is unchanged
+	for _, dt := range widthDtypes {
+		for _, c := range []struct{ sh, p, roll string }{{"2,3", "1,0", "1 0"}, {"3,2", "1,0", "1 0"}, {"2,2,2", "2,0,1", "2 0"}, {"2,3,2", "0,2,1", "2 1"}, {"1,3", "1,0", "1 0"}} {
+			n := 1
+			for _, d := range strings.Split(c.sh, ",") {
+				k, _ := strconv.Atoi(d)
+				n *= k
+			}
+			for _, op := range []string{"safeT $0 " + c.p, "safeT $0 -", "apiT $0 " + c.p, "apiT $0 -", "apiTranspose $0 " + c.p, "roll $0 " + c.roll + " 1"} {
+				g.emit(fmt.Sprintf("mnew %s %s C %s", dt, c.sh, g.maskBits(n, "rand")), op, "mdump $1", "mq count $1", "miter $1 Y", "mdump $0")
+			}
+		}
 	}
 
 	// --- H. masked operands of elementwise operations (C06/C08 matrix, masked part)
